@@ -662,6 +662,10 @@ func (w *Reconciler) handleKillJob(
 	tasks []jobtasks.Task,
 ) (*execution.Job, error) {
 	if !shouldKillJob(rj) {
+		// The kill timestamp is in the future, sync again once it is reached.
+		if ts := rj.Spec.KillTimestamp; ktime.IsTimeSetAndLater(ts) {
+			w.enqueueAfter(rj, "kill_timestamp", time.Until(ts.Time))
+		}
 		return rj, nil
 	}
 
